@@ -211,6 +211,16 @@ def readback_case(d, w, h, mname, scheme, part, sub=None, stale=False, via="dire
                     first = make_image(w, h, NARROWER[mname])
                     tiling.tile_image(Image.from_array(first, default_format=n_fmt), PyramidIO(out + "_first", scheme=scheme, default_format=n_fmt))
                     tiling.tile_image(img, pio)
+                elif via == "thumbnail-first":
+                    # the order the tile-study command uses: a thumbnail is made from the (PIL-backed) image before
+                    # it is tiled; the image must be tiled as it was
+                    from PIL import Image as PILImage
+
+                    img = Image.from_pil(PILImage.fromarray(arr.copy()))
+                    b0 = Builder(pio)
+                    b0.make_thumbnail_from_other(img)
+                    tiling = b0.prepare_study_tiling(img)
+                    b0.execute_study_tiling(img, tiling)
                 elif via == "builder":
                     b0 = Builder(pio)
                     tiling = b0.prepare_study_tiling(img)
@@ -383,6 +393,10 @@ def run(tier, seed):
     for (w, h), sb in subs[:3] + [((513, 300), None), ((257, 257), None)]:
         for m in ("F32/fits", "RGBA/png", "I16/npy"):
             rb.append((w, h, m, "L/Y/YX", sb, False, "builder"))
+    # thumbnail made first; sizes of exactly the thumbnail's aspect ratio (96:45) among them
+    for (w, h) in [(192, 90), (960, 450), (300, 141), (300, 270), (96, 45)]:
+        for m in ("RGB/png", "RGBA/png"):
+            rb.append((w, h, m, "L/Y/YX", None, False, "thumbnail-first"))
     for (w, h) in [(300, 270), (257, 513)]:
         for m in sorted(NARROWER):
             rb.append((w, h, m, "LXY" if m.endswith("npy") else "L/Y/YX", None, False, "reuse"))
